@@ -149,7 +149,14 @@ class C16(Check):
                 for s in d["secs"]:
                     if isinstance(s.get("seal"), int) and not isinstance(s.get("seal"), bool):
                         s["seal"] = {"slack": rng.choice([0, 1, 16])}
-            return {"ws": ws, "r": rr, "jumps": [[rng.randrange(2000), rng.choice([-7.0, 3.5, 1e5, -1e5, 1e6])] for _ in range(rng.randint(0, 3))], "exps": EXPONENTS}
+            # in-language reads of `_extent_` (the maximum, not the set) of types that hold parameterised arrays
+            for d in root["defs"]:
+                for s0 in d["secs"]:
+                    refs = [it[1] for it in s0["items"] if it[0] == "f" and it[1][0] == "ref"]
+                    if refs and rng.random() < 0.5:
+                        t0 = rng.choice(refs)
+                        s0["items"].append(["raw", rng.choice(["@assert %s.%d.%d._extent_ %% 8 == 0", "@assert (16 + %s.%d.%d._extent_) * 2 >= 32", "@assert %s.%d.%d._extent_ >= 0"]) % (t0[1], t0[2], t0[3]), []])
+            return {"ws": ws, "r": rr, "debug_logging": rng.random() < 0.35, "jumps": [[rng.randrange(2000), rng.choice([-7.0, 3.5, 1e5, -1e5, 1e6])] for _ in range(rng.randint(0, 3))], "exps": EXPONENTS}
         raise RuntimeError("no parameterisable skeleton")
 
     def execute(self, scn: dict) -> Outcome:
@@ -195,7 +202,36 @@ class C16(Check):
                     counts["big_modulo"] += 1
             return local
 
+        import logging
+
+        class _Formatting(logging.Handler):
+            """What an application that lowered the log level to DEBUG has: a handler that formats every record."""
+            def emit(self, record):
+                try:
+                    self.format(record)
+                except Exception:
+                    pass
+        handler = _Formatting()
+        debug_logging = bool(scn.get("debug_logging"))
+
         def measure(ws: dict, jumps) -> tuple[dict, object]:
+            if debug_logging:
+                lg = logging.getLogger("pydsdl")
+                old_state = (logging.root.manager.disable, lg.level)
+                logging.disable(logging.NOTSET)
+                lg.setLevel(logging.DEBUG)
+                lg.addHandler(handler)
+                lg.propagate = False
+            try:
+                return measure0(ws, jumps)
+            finally:
+                if debug_logging:
+                    lg.removeHandler(handler)
+                    lg.setLevel(old_state[1])
+                    lg.propagate = True
+                    logging.disable(old_state[0])
+
+        def measure0(ws: dict, jumps) -> tuple[dict, object]:
             w = World({"ws": ws})
             clock.install()
             clock.reset()
